@@ -351,8 +351,13 @@ def cli_case(item):
         cli.materialise(d, {'config/settings.yaml': 'year: 2025\ndata_sources:\n  - name: Card\n    file: data/card.csv\n    format: "{date:%m/%d/%Y},{description},{amount}"\n',
                             'config/merchant_categories.csv': csv_text(rules), 'data/card.csv': '\n'.join(rows) + '\n'})
         before = cli.up_classification(d)
+        before_n = cli.up_counts(d)
         mig = cli.run_tally(['up', '--migrate', '-q', '--format', 'json'], cwd=d)
         after = cli.up_classification(d)
+        after_n = cli.up_counts(d)
+        if isinstance(before, dict) and isinstance(after, dict) and after == before and after_n != before_n:
+            # the same descriptions under the same merchants, but not the same transactions: compare per merchant (count, total)
+            before, after = {'(per merchant)': before_n}, {'(per merchant)': after_n}
         return rules, before, after, mig['rc'], os.path.exists(os.path.join(d, 'config', 'merchants.rules'))
     finally:
         shutil.rmtree(d, ignore_errors=True)
@@ -421,6 +426,15 @@ def run(ck):
             rs.append({'pattern': rnd2.choice(LD.PATTERNS), 'mods_text': rnd2.choice(LD.MODS[:10])[0], 'merchant': 'Rule %d' % (i + 1),
                        'cat': rnd2.choice(['Food', 'Bills']), 'sub': rnd2.choice(['', 'Sub']), 'tags': rnd2.choice([[], ['tagged']]), 'relative': False})
         cases.append((rs,))
+    # the split-by-modifier idiom: rows that share pattern, merchant, category and subcategory and differ ONLY in their
+    # modifier (and tags) - each row is a rule of its own, before and after the migration
+    for k in range(6 if quick else 40):
+        pat = rnd2.choice(LD.PATTERNS[:6])
+        m1, m2 = rnd2.sample(LD.MODS[1:10], 2)
+        shared = {'pattern': pat, 'merchant': 'Same Shop', 'cat': 'Food', 'sub': rnd2.choice(['', 'Sub']), 'relative': False}
+        rs = [dict(shared, mods_text=m1[0], tags=['large'] if k % 2 else []), dict(shared, mods_text=m2[0], tags=[]),
+              dict(shared, mods_text='', tags=['rest'] if k % 3 == 0 else [])]
+        cases.append((rs[:2 + k % 2],))
     for rules, before, after, rc, created in par.pmap(cli_case, cases):
         ck.case(n=1)
         ck.trace(1)
